@@ -24,8 +24,10 @@ WILD = ['ALL', 'NONE', 'REMAINING']
 
 def component_model(provides, requires, injected, order=0):
     """A tiny model: one interface, a component C with the given port names."""
-    itf = M.Interface(['I'], [], [
+    itf = M.Interface(['I'], [M.Enum(['Ans'], ['Yes', 'No'])], [
         M.Event('go', 'in', M.Ref(['bool']), [M.Formal('x', M.Ref(['T'], 'T'), 'in')]),
+        M.Event('take', 'in', M.Ref(['Ans'], 'N.I.Ans'), []),
+        M.Event('drop', 'in', M.Ref(['void']), []),
         M.Event('done', 'out', M.Ref(['void']), [M.Formal('y', M.Ref(['T'], 'T'), 'in')])])
     ports = [M.Port(n, M.Ref(['I'], 'N.I'), 'provides') for n in provides]
     ports += [M.Port(n, M.Ref(['N', 'I'], 'N.I'), 'requires') for n in requires]
@@ -57,6 +59,12 @@ def eval_case(case: dict) -> dict:
         if ':' in reason else reason
     reason_kind = ''.join(ch for ch in reason_kind if not ch.isdigit())
     reason_kind = reason_kind.split(": ['")[0]
+    if case.get('mc') and verdict != refcfg.REJECT:
+        cnt['configurations_with_a_multiclient_port'] = 1
+        if mapping is None or mapping.get(case['mc']['port']) != 'MTS':
+            # arbitration needs the dispatcher: a multi-client port under STS is refused
+            verdict, reason = refcfg.REJECT, 'multi-client port is not multi-threaded'
+            reason_kind = reason
     cnt[f'ref_{verdict}'] = 1
     exposed = case['provides'] + case['requires']
 
@@ -65,7 +73,7 @@ def eval_case(case: dict) -> dict:
         out['violations'].append({'mechanism': mech, 'detail': detail, 'case': case})
 
     enc = {'encapsulee': 'N.C', 'filename': 'Model.dzn', 'suffix': 'Shell',
-           'provides': case['psel'], 'requires': case['rsel'], 'multiclient': None,
+           'provides': case['psel'], 'requires': case['rsel'], 'multiclient': case.get('mc'),
            'origin': case.get('origin', 'create'), 'copyright': 'c', 'creator': None,
            'prefix': None}
     got_map = None
@@ -227,6 +235,16 @@ def gen_cases(tier: str, rng: random.Random):
                       'rsel': cfggen.rand_side(rng, req),
                       'level': 'build' if i % 2 else 'match',
                       'origin': rng.choice(['create', 'import'])})
+    # with a multi-client provides port configured: every rule still applies (mixing among the
+    # provides ports above all), and the arbitered port itself must come out multi-threaded
+    for prov, req, inj in shapes:
+        if not prov:
+            continue
+        mc = {'port': prov[0], 'claim': 'take', 'reply': ['Yes'], 'release': 'drop'}
+        for s_sel, m_sel in itertools.product(psels, psels):
+            cases.append({'provides': prov, 'requires': req, 'injected': inj, 'mc': mc,
+                          'psel': {'sts': s_sel, 'mts': m_sel},
+                          'rsel': cfggen.rand_side(rng, req), 'level': 'build'})
     # beyond the small scope: 4-6 names per side
     n_big = 1000 if tier == 'quick' else 100000
     for _ in range(n_big):
@@ -278,7 +296,7 @@ def main(tier: str) -> int:
                 'configured_via_preset_all_mts', 'configured_via_preset_all_sts',
                 'configured_via_preset_all_sts_all_mts', 'configured_via_preset_all_mts_all_sts',
                 'configured_via_preset_all_mts_mixed_ts', 'configured_via_preset_all_sts_mixed_ts',
-                'configured_via_constructor',
+                'configured_via_constructor', 'configurations_with_a_multiclient_port',
                 'ref_unspecified')
     chunks = [cases[i:i + 400] for i in range(0, len(cases), 400)]
     for _item, res in run.pmap(_worker, chunks):
